@@ -8,8 +8,9 @@ WT=/tmp/wt_seed_$$
 git -C /repo worktree add -q --detach "$WT" HEAD || exit 9
 ( cd /repo && find src -name "*.so" ) | while read f; do cp "/repo/$f" "$WT/$f"; done
 git -C "$WT" apply "$S/patch.diff" || { git -C /repo worktree remove --force "$WT"; exit 9; }
-cp /verif/evidence/$ID.json /tmp/evidence_$ID.$$.json 2>/dev/null
+case " $* " in *" --only "*) KEEP=0;; *) KEEP=1;; esac   # with --only the runner writes no evidence: nothing to protect
+[ $KEEP = 1 ] && cp /verif/evidence/$ID.json /tmp/evidence_$ID.$$.json 2>/dev/null
 ( cd /verif && VERIF_REPO="$WT" PYTHONPATH="$WT/src" ./check "$ID" "$@" ); rc=$?
-cp /tmp/evidence_$ID.$$.json /verif/evidence/$ID.json 2>/dev/null; rm -f /tmp/evidence_$ID.$$.json
+[ $KEEP = 1 ] && cp /tmp/evidence_$ID.$$.json /verif/evidence/$ID.json 2>/dev/null; rm -f /tmp/evidence_$ID.$$.json
 git -C /repo worktree remove --force "$WT"
 echo "exit=$rc"
